@@ -11,6 +11,7 @@ fn alt_class(a: &h::Alt) -> String {
     h::Alt::Verbatim => "replay".into(),
     h::Alt::FromOldRun => "replay-of-earlier-handshake".into(),
     h::Alt::ClassId(_) => "class-id".into(),
+    h::Alt::ClassIdByte(_) => "class-id-byte".into(),
     h::Alt::DropProp(n) => format!("drop:{n}"),
     h::Alt::RenameProp(n) => format!("rename:{n}"),
     h::Alt::EmptyProp(n) => format!("empty:{n}"),
@@ -33,6 +34,9 @@ pub fn scenarios(tier: &str, tr: &h::Transcript) -> Vec<h::Scenario> {
           continue;
         }
         let mut alts = vec![h::Alt::Verbatim, h::Alt::FromOldRun, h::Alt::ClassId(0), h::Alt::ClassId(1), h::Alt::ClassId(2)];
+        for i in 0..26 {
+          alts.push(h::Alt::ClassIdByte(i));
+        }
         for (n, _) in h::props_of(&tr.m[msg]) {
           alts.push(h::Alt::DropProp(n.clone()));
           alts.push(h::Alt::RenameProp(n.clone()));
@@ -78,7 +82,7 @@ pub fn scenarios(tier: &str, tr: &h::Transcript) -> Vec<h::Scenario> {
   if thorough {
     // two bad tokens per run: structural alterations only, second one right away or one genuine delivery later
     let structural = |m: usize| -> Vec<h::Alt> {
-      let mut a = vec![h::Alt::Verbatim, h::Alt::FromOldRun, h::Alt::ClassId(0), h::Alt::ClassId(1), h::Alt::ClassId(2)];
+      let mut a = vec![h::Alt::Verbatim, h::Alt::FromOldRun, h::Alt::ClassId(0), h::Alt::ClassId(1), h::Alt::ClassId(2), h::Alt::ClassIdByte(22)];
       for (n, len) in h::props_of(&tr.m[m]) {
         a.push(h::Alt::DropProp(n.clone()));
         a.push(h::Alt::EmptyProp(n.clone()));
@@ -240,7 +244,7 @@ pub fn run(tier: &str) -> i32 {
   rep.set("distinct_nontrivial", json!(classes.len()));
   rep.set("scenario_classes", json!(classes));
   rep.set("exhaustive", json!(true));
-  rep.set("rule", json!("every point of the genuine run (0..3 messages delivered) x target (requester, replier) x message seen so far x alteration {verbatim replay/reordering/reflection, the same message of an earlier completed handshake, each other class id, every binary property dropped / renamed / emptied / replaced by its value from the earlier handshake, each of these and every flip in the nonces, keys and signatures additionally with the optional hash_c1/hash_c2 removed, foreign-CA certificate and unbound GUID with the content hash kept / recomputed / dropped}; every byte of every binary property flipped for the message in its natural slot (thorough: three masks, and also one step late); one injection per run (thorough: also every pair of structural alterations, the second right away or one genuine delivery later), then the genuine messages keep flowing with the discovery layer's resends for 6 rounds"));
+  rep.set("rule", json!("every point of the genuine run (0..3 messages delivered) x target (requester, replier) x message seen so far x alteration {verbatim replay/reordering/reflection, the same message of an earlier completed handshake, each other class id and every byte of the class id string altered, every binary property dropped / renamed / emptied / replaced by its value from the earlier handshake, each of these and every flip in the nonces, keys and signatures additionally with the optional hash_c1/hash_c2 removed, foreign-CA certificate and unbound GUID with the content hash kept / recomputed / dropped}; every byte of every binary property flipped for the message in its natural slot (thorough: three masks, and also one step late); one injection per run (thorough: also every pair of structural alterations, the second right away or one genuine delivery later), then the genuine messages keep flowing with the discovery layer's resends for 6 rounds"));
   rep.assumptions = vec![
     "The six-state dispatch of SecureDiscovery::participant_stateless_message_read (which plug-in call per state, state after Ok/Err, message stored for resending) is mirrored in incrate/sec/hs19.rs; every plug-in call is real".into(),
     "The adversary can set the related-message identity of a stateless message (it is not signed), so injected tokens reach the plug-in".into(),
